@@ -70,7 +70,8 @@ Ltac nth_leaf :=
         | exfalso; lia
         | f_equal; lia
         | apply nth_error_None; lia
-        | symmetry; apply nth_error_None; lia ].
+        | symmetry; apply nth_error_None; lia
+        | etransitivity; [apply nth_error_None; lia | symmetry; apply nth_error_None; lia] ].
 (* prove an equation between lists built from firstn/skipn/++/cons over base lists *)
 Ltac list_ext :=
   apply nth_error_ext; let i := fresh "i" in intro i; nth_norm; nat_cases; nth_leaf.
@@ -113,8 +114,69 @@ Lemma in_range_true : forall l lo n, 0 <= lo -> 0 <= n -> lo + n <= zlen l -> in
 Proof. intros. unfold in_range. lia. Qed.
 End ZList.
 
+
 (* ------------------------------------------------------------------------------------ *)
-(* the rotated (logical) view of the storage                                             *)
+(* the rotated (logical) view of the storage: nat-level list algebra                      *)
+(* ------------------------------------------------------------------------------------ *)
+Section RotNat.
+Context {A : Type}.
+Implicit Types store l d : list A.
+Definition rotn (r : nat) l := skipn r l ++ firstn r l.
+Definition putn l (lo : nat) d := firstn lo l ++ d ++ skipn (lo + length d) l.
+
+Lemma rotn_length : forall r l, length (rotn r l) = length l.
+Proof. intros. unfold rotn. rewrite app_length, firstn_length, skipn_length. lia. Qed.
+Lemma putn_length : forall l lo d, (lo + length d <= length l)%nat -> length (putn l lo d) = length l.
+Proof. intros. unfold putn. rewrite !app_length, firstn_length, skipn_length. lia. Qed.
+
+Lemma nth_error_rotn : forall r l i, (r <= length l)%nat ->
+  nth_error (rotn r l) i =
+  if (i <? length l - r)%nat then nth_error l (r + i)
+  else if (i <? length l)%nat then nth_error l (i - (length l - r)) else None.
+Proof. intros. unfold rotn. nth_norm. nat_cases; nth_leaf. Qed.
+
+Lemma nth_error_putn : forall l lo d i, (lo + length d <= length l)%nat ->
+  nth_error (putn l lo d) i =
+  if (i <? lo)%nat then nth_error l i
+  else if (i <? lo + length d)%nat then nth_error d (i - lo) else nth_error l i.
+Proof. intros. unfold putn. nth_norm. nat_cases; nth_leaf. Qed.
+
+Ltac rot_ext :=
+  apply nth_error_ext; let i := fresh "i" in intro i;
+  repeat (first [ rewrite nth_error_rotn by (rewrite ?putn_length, ?rotn_length by lia; lia)
+                | rewrite nth_error_putn by (rewrite ?putn_length, ?rotn_length by lia; lia)
+                | rewrite putn_length by (rewrite ?rotn_length; lia)
+                | rewrite rotn_length ]);
+  nth_norm; nat_cases; nth_leaf.
+
+Lemma rotn_slice1 : forall store r j n, (r + j + n <= length store)%nat ->
+  firstn n (skipn (r + j) store) = firstn n (skipn j (rotn r store)).
+Proof. intros. unfold rotn. list_ext. Qed.
+Lemma rotn_slice2 : forall store r j n,
+  (r <= length store)%nat -> (length store <= r + j)%nat -> (j + n <= length store)%nat ->
+  firstn n (skipn (r + j - length store) store) = firstn n (skipn j (rotn r store)).
+Proof. intros. unfold rotn. list_ext. Qed.
+Lemma rotn_put1 : forall store r j d, (r + j + length d <= length store)%nat ->
+  rotn r (putn store (r + j) d) = putn (rotn r store) j d.
+Proof. intros. rot_ext. Qed.
+Lemma rotn_put2 : forall store r j d,
+  (r <= length store)%nat -> (length store <= r + j)%nat -> (j + length d <= length store)%nat ->
+  rotn r (putn store (r + j - length store) d) = putn (rotn r store) j d.
+Proof. intros. rot_ext. Qed.
+Lemma rotn_rotn1 : forall store r k, (r + k <= length store)%nat ->
+  rotn (r + k) store = rotn k (rotn r store).
+Proof. intros. unfold rotn. list_ext. Qed.
+Lemma rotn_rotn2 : forall store r k,
+  (r <= length store)%nat -> (length store <= r + k)%nat -> (k <= length store)%nat ->
+  rotn (r + k - length store) store = rotn k (rotn r store).
+Proof. intros. unfold rotn. list_ext. Qed.
+Lemma rotn_reset : forall store r, (r <= length store)%nat ->
+  rotn 0 store = rotn (length store - r) (rotn r store).
+Proof. intros. unfold rotn. list_ext. Qed.
+End RotNat.
+
+(* ------------------------------------------------------------------------------------ *)
+(* the same at Z indices                                                                  *)
 (* ------------------------------------------------------------------------------------ *)
 Definition pidx (c read j : Z) : Z := if 0 <? c then wrap c (read + j) else 0.
 
@@ -122,46 +184,715 @@ Section Rot.
 Context {A : Type}.
 Implicit Types store l d : list A.
 
+Lemma rotl_rotn : forall k l, rotl k l = rotn (Z.to_nat k) l.
+Proof. reflexivity. Qed.
+Lemma put_putn : forall l lo d, put l lo d = putn l (Z.to_nat lo) d.
+Proof. reflexivity. Qed.
+
+Lemma slice_nil : forall lo n, slice (@nil A) lo n = [].
+Proof. intros. unfold slice. rewrite skipn_nil, firstn_nil. reflexivity. Qed.
+
 (* reading a non-wrapping physical range = reading the logical range *)
 Lemma rot_slice : forall store read j n,
   0 <= read < Z.max 1 (zlen store) -> 0 <= j -> 0 <= n -> j + n <= zlen store ->
   pidx (zlen store) read j + n <= zlen store ->
   slice store (pidx (zlen store) read j) n = slice (rotl read store) j n.
 Proof.
-  intros store read j n Hr Hj Hn Hjn Hp. unfold pidx, wrap, slice, rotl, zlen in *.
+  intros store read j n Hr Hj Hn Hjn Hp. unfold pidx, wrap, slice in *. rewrite rotl_rotn.
+  unfold zlen in *.
   destruct (Z.ltb_spec 0 (Z.of_nat (length store))).
-  - destruct (Z.leb_spec (Z.of_nat (length store)) (read + j)); list_ext.
-  - destruct store; [|simpl in *; lia]. list_ext.
+  - destruct (Z.leb_spec (Z.of_nat (length store)) (read + j)).
+    + replace (Z.to_nat (read + j - Z.of_nat (length store)))
+        with (Z.to_nat read + Z.to_nat j - length store)%nat by lia.
+      apply rotn_slice2; lia.
+    + replace (Z.to_nat (read + j)) with (Z.to_nat read + Z.to_nat j)%nat by lia.
+      apply rotn_slice1; lia.
+  - destruct store; [|simpl in *; lia]. unfold rotn.
+    rewrite !skipn_nil, !firstn_nil. simpl. rewrite !skipn_nil, !firstn_nil. reflexivity.
 Qed.
 
-(* writing a non-wrapping physical range = writing the logical range *)
 Lemma rot_put : forall store read j d,
   0 <= read < Z.max 1 (zlen store) -> 0 <= j -> j + zlen d <= zlen store ->
   pidx (zlen store) read j + zlen d <= zlen store ->
   rotl read (put store (pidx (zlen store) read j) d) = put (rotl read store) j d.
 Proof.
-  intros store read j d Hr Hj Hjn Hp. unfold pidx, wrap, put, rotl, zlen in *.
+  intros store read j d Hr Hj Hjn Hp. unfold pidx, wrap in *. rewrite !rotl_rotn, !put_putn.
+  unfold zlen in *.
   destruct (Z.ltb_spec 0 (Z.of_nat (length store))).
-  - destruct (Z.leb_spec (Z.of_nat (length store)) (read + j)); list_ext.
-  - destruct store; [|simpl in *; lia]. destruct d; [|simpl in *; lia]. list_ext.
+  - destruct (Z.leb_spec (Z.of_nat (length store)) (read + j)).
+    + replace (Z.to_nat (read + j - Z.of_nat (length store)))
+        with (Z.to_nat read + Z.to_nat j - length store)%nat by lia.
+      apply rotn_put2; lia.
+    + replace (Z.to_nat (read + j)) with (Z.to_nat read + Z.to_nat j)%nat by lia.
+      apply rotn_put1; lia.
+  - destruct store; [|simpl in *; lia]. destruct d; [|simpl in *; lia].
+    replace (Z.to_nat read) with 0%nat by (simpl in *; lia).
+    replace (Z.to_nat j) with 0%nat by (simpl in *; lia). reflexivity.
 Qed.
 
-(* advancing the read position by k = rotating the logical view by k *)
 Lemma rot_rot : forall store read k,
   0 <= read < Z.max 1 (zlen store) -> 0 <= k <= zlen store ->
   rotl (pidx (zlen store) read k) store = rotl k (rotl read store).
 Proof.
-  intros store read k Hr Hk. unfold pidx, wrap, rotl, zlen in *.
+  intros store read k Hr Hk. unfold pidx, wrap in *. rewrite !rotl_rotn. unfold zlen in *.
   destruct (Z.ltb_spec 0 (Z.of_nat (length store))).
-  - destruct (Z.leb_spec (Z.of_nat (length store)) (read + k)); list_ext.
-  - destruct store; [|simpl in *; lia]. list_ext.
+  - destruct (Z.leb_spec (Z.of_nat (length store)) (read + k)).
+    + replace (Z.to_nat (read + k - Z.of_nat (length store)))
+        with (Z.to_nat read + Z.to_nat k - length store)%nat by lia.
+      apply rotn_rotn2; lia.
+    + replace (Z.to_nat (read + k)) with (Z.to_nat read + Z.to_nat k)%nat by lia.
+      apply rotn_rotn1; lia.
+  - destruct store; [|simpl in *; lia]. unfold rotn.
+    rewrite !skipn_nil, !firstn_nil. simpl. rewrite ?skipn_nil, ?firstn_nil. reflexivity.
 Qed.
 
-(* resetting the read position to 0 *)
 Lemma rot_reset : forall store read,
   0 <= read < Z.max 1 (zlen store) ->
   rotl 0 store = rotl (zlen store - read) (rotl read store).
 Proof.
-  intros store read Hr. unfold rotl, zlen in *. list_ext.
+  intros store read Hr. rewrite !rotl_rotn. unfold zlen in *.
+  replace (Z.to_nat (Z.of_nat (length store) - read)) with (length store - Z.to_nat read)%nat by lia.
+  apply rotn_reset. lia.
 Qed.
+
+Lemma rotl_0 : forall l, rotl 0 l = l.
+Proof. intros. unfold rotl. simpl. apply app_nil_r. Qed.
 End Rot.
+
+(* ------------------------------------------------------------------------------------ *)
+(* list algebra on q ++ fr                                                                *)
+(* ------------------------------------------------------------------------------------ *)
+Section AppAlg.
+Context {A : Type}.
+Implicit Types q fr l d : list A.
+
+Lemma to_nat_zlen : forall l, Z.to_nat (zlen l) = length l.
+Proof. intros. unfold zlen. lia. Qed.
+
+Lemma putn_app_at : forall q fr o d, (o + length d <= length fr)%nat ->
+  putn (q ++ fr) (length q + o) d = q ++ putn fr o d.
+Proof. intros. unfold putn. list_ext. Qed.
+Lemma slicen_app_at : forall q fr o n,
+  firstn n (skipn (length q + o) (q ++ fr)) = firstn n (skipn o fr).
+Proof. intros. list_ext. Qed.
+Lemma slicen_app_l : forall q fr o n, (o + n <= length q)%nat ->
+  firstn n (skipn o (q ++ fr)) = firstn n (skipn o q).
+Proof. intros. list_ext. Qed.
+Lemma rotn_app : forall q fr k, (k <= length q)%nat ->
+  rotn k (q ++ fr) = skipn k q ++ fr ++ firstn k q.
+Proof. intros. unfold rotn. list_ext. Qed.
+
+Lemma put_app_at : forall q fr o d, 0 <= o -> o + zlen d <= zlen fr ->
+  put (q ++ fr) (zlen q + o) d = q ++ put fr o d.
+Proof.
+  intros. rewrite !put_putn. unfold zlen in *.
+  replace (Z.to_nat (Z.of_nat (length q) + o)) with (length q + Z.to_nat o)%nat by lia.
+  apply putn_app_at. lia.
+Qed.
+Lemma slice_app_at : forall q fr o n, 0 <= o ->
+  slice (q ++ fr) (zlen q + o) n = slice fr o n.
+Proof.
+  intros. unfold slice, zlen.
+  replace (Z.to_nat (Z.of_nat (length q) + o)) with (length q + Z.to_nat o)%nat by lia.
+  apply slicen_app_at.
+Qed.
+Lemma slice_app_l : forall q fr o n, 0 <= o -> 0 <= n -> o + n <= zlen q ->
+  slice (q ++ fr) o n = slice q o n.
+Proof. intros. unfold slice, zlen in *. apply slicen_app_l. lia. Qed.
+Lemma rotl_app : forall q fr k, 0 <= k <= zlen q ->
+  rotl k (q ++ fr) = skipn (Z.to_nat k) q ++ fr ++ firstn (Z.to_nat k) q.
+Proof. intros. rewrite rotl_rotn. apply rotn_app. unfold zlen in *. lia. Qed.
+
+Lemma slice_0 : forall l n, slice l 0 n = firstn (Z.to_nat n) l.
+Proof. reflexivity. Qed.
+Lemma put_0 : forall l d, put l 0 d = d ++ skipn (length d) l.
+Proof. reflexivity. Qed.
+
+Lemma firstn_app_exact : forall q fr, firstn (length q) (q ++ fr) = q.
+Proof. intros. list_ext. Qed.
+Lemma skipn_app_exact : forall q fr, skipn (length q) (q ++ fr) = fr.
+Proof. intros. list_ext. Qed.
+
+Lemma elem_at_slice : forall l i x rest, 0 <= i -> skipn (Z.to_nat i) l = x :: rest ->
+  elem_at l i = Ok x.
+Proof.
+  intros l i x rest Hi H. unfold elem_at. destruct (Z.ltb_spec i 0); [lia|].
+  replace (Z.to_nat i) with (Z.to_nat i + 0)%nat by lia.
+  rewrite <- nth_error_skipn_add, H. reflexivity.
+Qed.
+End AppAlg.
+
+(* ------------------------------------------------------------------------------------ *)
+(* invariant, representation, simulation of the primitive operations                     *)
+(* ------------------------------------------------------------------------------------ *)
+Section Refine.
+Variable A : Type.
+Implicit Types r : ring A.
+Implicit Types s : qs A.
+Implicit Types q fr : list A.
+
+Definition ring_inv r : Prop :=
+  0 <= r_len r <= ring_capacity r /\ 0 <= r_read r < Z.max 1 (ring_capacity r).
+
+Definition qs_wf s : Prop := 0 <= q_pos s < Z.max 1 (qs_cap s).
+
+(* r represents the queue q with scratch area fr *)
+Definition rep r q fr : Prop :=
+  ring_inv r /\ rotl (r_read r) (r_store r) = q ++ fr /\ zlen q = r_len r.
+
+Lemma rep_view : forall r q fr, rep r q fr -> ring_view r = mkQs q fr (r_read r).
+Proof.
+  intros r q fr (Hi & HL & Hq). unfold ring_view. rewrite HL, <- Hq, to_nat_zlen.
+  rewrite firstn_app_exact, skipn_app_exact. reflexivity.
+Qed.
+
+Lemma view_rep : forall r, ring_inv r -> rep r (q_q (ring_view r)) (q_fr (ring_view r)).
+Proof.
+  intros r Hi. split; [exact Hi|]. unfold ring_view; simpl. split.
+  - rewrite firstn_skipn. reflexivity.
+  - destruct Hi as ((H0 & H1) & _). unfold zlen, ring_capacity in *.
+    rewrite firstn_length, rotl_length. unfold zlen in *. lia.
+Qed.
+
+Lemma rep_cap : forall r q fr, rep r q fr -> zlen q + zlen fr = ring_capacity r.
+Proof.
+  intros r q fr (Hi & HL & Hq). unfold ring_capacity, zlen.
+  rewrite <- (rotl_length (r_read r) (r_store r)), HL, app_length. lia.
+Qed.
+
+Lemma mk_rep : forall store read len q fr,
+  0 <= read < Z.max 1 (zlen store) -> rotl read store = q ++ fr -> zlen q = len ->
+  rep (mkRing store read len) q fr.
+Proof.
+  intros. unfold rep, ring_inv, ring_capacity; simpl. repeat split; auto; try lia.
+  - pose proof (zlen_nonneg q). lia.
+  - unfold zlen in *. rewrite <- (rotl_length read store), H0, app_length. lia.
+Qed.
+
+Lemma get_idx_pidx : forall r i, ring_inv r -> 0 <= i <= ring_capacity r ->
+  ring_get_idx r i = pidx (ring_capacity r) (r_read r) i.
+Proof.
+  intros r i (Hl & Hr) Hi. unfold ring_get_idx, pidx.
+  destruct (Z.ltb_spec 0 (ring_capacity r)); auto. apply mod_wrap; lia.
+Qed.
+
+Lemma get_idx_unchecked_pidx : forall r i, ring_inv r -> 0 < ring_capacity r ->
+  0 <= i <= ring_capacity r ->
+  ring_get_idx_unchecked r i = Ok (pidx (ring_capacity r) (r_read r) i).
+Proof.
+  intros r i (Hl & Hr) Hc Hi. unfold ring_get_idx_unchecked, pidx.
+  destruct (Z.eqb_spec (ring_capacity r) 0); [lia|].
+  destruct (Z.ltb_spec 0 (ring_capacity r)); [|lia]. f_equal. apply mod_wrap; lia.
+Qed.
+
+Lemma pidx_range : forall c read i, 0 <= read < Z.max 1 c -> 0 <= i <= c ->
+  0 <= pidx c read i < Z.max 1 c.
+Proof.
+  intros. unfold pidx, wrap. destruct (Z.ltb_spec 0 c); [|lia].
+  destruct (Z.leb_spec c (read + i)); lia.
+Qed.
+
+Definition sim {R} (x : outcome (ring A * R)) (y : outcome (qs A * R)) : Prop :=
+  match x with
+  | Ok (r', o) => ring_inv r' /\ y = Ok (ring_view r', o)
+  | Err e => y = Err e
+  | Panic => y = Panic
+  end.
+
+Lemma qs_idx_pidx : forall q fr pos i,
+  qs_idx (mkQs q fr pos) i = pidx (zlen q + zlen fr) pos i.
+Proof. reflexivity. Qed.
+
+Lemma zlen_cons : forall (x : A) l, zlen (x :: l) = 1 + zlen l.
+Proof. intros. unfold zlen. simpl. lia. Qed.
+Lemma zlen_app : forall (l1 l2 : list A), zlen (l1 ++ l2) = zlen l1 + zlen l2.
+Proof. intros. unfold zlen. rewrite app_length. lia. Qed.
+Lemma zlen_nil : zlen (@nil A) = 0.
+Proof. reflexivity. Qed.
+Lemma zlen_put : forall (l : list A) lo d, 0 <= lo -> lo + zlen d <= zlen l -> zlen (put l lo d) = zlen l.
+Proof. intros. unfold zlen. rewrite put_length; auto. Qed.
+
+Lemma sim_enqueue_one_with' : forall R r q fr (f : Z -> A -> outcome (A * bool * R)),
+  rep r q fr -> sim (ring_enqueue_one_with r f) (qs_enqueue_one_with (mkQs q fr (r_read r)) f).
+Proof.
+  intros R r q fr f Hrep. pose proof (rep_cap Hrep) as Hc. destruct Hrep as (Hi & HL & Hq).
+  pose proof Hi as Hi'. unfold ring_inv in Hi'.
+  unfold ring_enqueue_one_with, qs_enqueue_one_with, ring_is_full, ring_window, ring_len.
+  cbn [q_fr q_q q_pos]. unfold qs_len; cbn [q_q].
+  pose proof (zlen_nonneg q).
+  destruct fr as [|old fr'].
+  - rewrite zlen_nil in Hc.
+    destruct (Z.eqb_spec (ring_capacity r - r_len r) 0); [|lia]. reflexivity.
+  - rewrite zlen_cons in Hc. pose proof (zlen_nonneg fr').
+    destruct (Z.eqb_spec (ring_capacity r - r_len r) 0); [lia|].
+    rewrite get_idx_unchecked_pidx by (auto; lia). cbn [obind].
+    rewrite qs_idx_pidx, zlen_cons, Hc, Hq.
+    unfold ring_capacity in *.
+    set (idx := pidx (zlen (r_store r)) (r_read r) (r_len r)).
+    assert (Hidx : 0 <= idx < Z.max 1 (zlen (r_store r))) by (apply pidx_range; lia).
+    assert (Hs : slice (r_store r) idx 1 = [old]).
+    { unfold idx. rewrite rot_slice by (try fold idx; lia).
+      rewrite HL, <- Hq, <- (Z.add_0_r (zlen q)), slice_app_at by lia. reflexivity. }
+    assert (He : elem_at (r_store r) idx = Ok old).
+    { unfold slice in Hs. destruct (skipn (Z.to_nat idx) (r_store r)) eqn:E; [discriminate|].
+      simpl in Hs. inversion Hs; subst. eapply elem_at_slice; eauto. lia. }
+    rewrite He. cbn [obind]. destruct (f idx old) as [[[new ok] res]| |]; cbn [obind sim]; auto.
+    assert (HL' : rotl (r_read r) (put (r_store r) idx [new]) = q ++ new :: fr').
+    { unfold idx. rewrite rot_put by (try fold idx; rewrite ?zlen_cons, ?zlen_nil; lia).
+      rewrite HL, <- Hq, <- (Z.add_0_r (zlen q)), put_app_at;
+        [reflexivity|lia|rewrite ?zlen_cons, ?zlen_nil; lia]. }
+    assert (Hpl : zlen (put (r_store r) idx [new]) = zlen (r_store r))
+      by (apply zlen_put; rewrite ?zlen_cons, ?zlen_nil; lia).
+    destruct ok.
+    + assert (Hrep : rep (mkRing (put (r_store r) idx [new]) (r_read r) (r_len r + 1)) (q ++ [new]) fr').
+      { apply mk_rep.
+        - rewrite Hpl. lia.
+        - rewrite HL', <- app_assoc. reflexivity.
+        - rewrite zlen_app, zlen_cons, zlen_nil. lia. }
+      split; [apply Hrep|]. rewrite (rep_view Hrep). reflexivity.
+    + assert (Hrep : rep (mkRing (put (r_store r) idx [new]) (r_read r) (r_len r)) q (new :: fr')).
+      { apply mk_rep; auto. rewrite Hpl. lia. }
+      split; [apply Hrep|]. rewrite (rep_view Hrep). reflexivity.
+Qed.
+
+Lemma pidx_0 : forall c read, 0 < c -> 0 <= read < c -> pidx c read 0 = read.
+Proof.
+  intros. unfold pidx, wrap. destruct (Z.ltb_spec 0 c); [|lia].
+  destruct (Z.leb_spec c (read + 0)); lia.
+Qed.
+
+Lemma rotl_1_cons : forall (x : A) l, rotl 1 (x :: l) = l ++ [x].
+Proof. reflexivity. Qed.
+
+Lemma sim_dequeue_one_with' : forall R r q fr (f : Z -> A -> outcome (bool * R)),
+  rep r q fr -> sim (ring_dequeue_one_with r f) (qs_dequeue_one_with (mkQs q fr (r_read r)) f).
+Proof.
+  intros R r q fr f Hrep. pose proof (rep_cap Hrep) as Hc. pose proof (rep_view Hrep) as Hv.
+  destruct Hrep as (Hi & HL & Hq).
+  pose proof Hi as Hi'. unfold ring_inv in Hi'.
+  unfold ring_dequeue_one_with, qs_dequeue_one_with, ring_is_empty, ring_len.
+  cbn [q_fr q_q q_pos]. pose proof (zlen_nonneg fr).
+  destruct q as [|x q'].
+  - rewrite zlen_nil in Hq. destruct (Z.eqb_spec (r_len r) 0); [|lia]. reflexivity.
+  - rewrite zlen_cons in Hq, Hc. pose proof (zlen_nonneg q').
+    destruct (Z.eqb_spec (r_len r) 0); [lia|].
+    rewrite get_idx_unchecked_pidx by (auto; lia). cbn [obind].
+    unfold ring_capacity in *.
+    assert (Hs : slice (r_store r) (r_read r) 1 = [x]).
+    { transitivity (slice (r_store r) (pidx (zlen (r_store r)) (r_read r) 0) 1);
+        [rewrite pidx_0 by lia; reflexivity|].
+      rewrite rot_slice by (rewrite ?pidx_0 by lia; lia).
+      rewrite HL. reflexivity. }
+    assert (He : elem_at (r_store r) (r_read r) = Ok x).
+    { unfold slice in Hs. destruct (skipn (Z.to_nat (r_read r)) (r_store r)) eqn:E; [discriminate|].
+      simpl in Hs. inversion Hs; subst. eapply elem_at_slice; eauto. lia. }
+    rewrite He. cbn [obind].
+    destruct (f (r_read r) x) as [[ok res]| |]; cbn [obind sim]; auto.
+    destruct ok.
+    + rewrite qs_idx_pidx, zlen_cons, Hc.
+      set (idx := pidx (zlen (r_store r)) (r_read r) 1).
+      assert (Hidx : 0 <= idx < Z.max 1 (zlen (r_store r))) by (apply pidx_range; lia).
+      assert (Hrep : rep (mkRing (r_store r) idx (r_len r - 1)) q' (fr ++ [x])).
+      { apply mk_rep; try lia.
+        unfold idx. rewrite rot_rot by lia. rewrite HL.
+        change ((x :: q') ++ fr) with (x :: (q' ++ fr)). rewrite rotl_1_cons, app_assoc.
+        reflexivity. }
+      split; [apply Hrep|]. rewrite (rep_view Hrep). reflexivity.
+    + split; auto. rewrite Hv. reflexivity.
+Qed.
+
+(* the empty-ring reset of read_at *)
+Definition ring_reset_if_empty r : ring A :=
+  if r_len r =? 0 then mkRing (r_store r) 0 (r_len r) else r.
+
+Lemma rep_reset : forall r q fr, rep r q fr ->
+  exists fr1, rep (ring_reset_if_empty r) q fr1 /\
+    qs_reset_if_empty (mkQs q fr (r_read r)) = mkQs q fr1 (r_read (ring_reset_if_empty r)) /\
+    r_len (ring_reset_if_empty r) = r_len r /\
+    zlen (r_store (ring_reset_if_empty r)) = zlen (r_store r).
+Proof.
+  intros r q fr Hrep. pose proof (rep_cap Hrep) as Hc. destruct Hrep as (Hi & HL & Hq).
+  pose proof Hi as Hi'. unfold ring_inv, ring_capacity in *.
+  unfold ring_reset_if_empty, qs_reset_if_empty, qs_len, qs_cap. cbn [q_q q_fr q_pos].
+  rewrite Hq. destruct (Z.eqb_spec (r_len r) 0).
+  - exists (rotl (zlen q + zlen fr - r_read r) fr).
+    destruct q; [|rewrite zlen_cons in Hq; pose proof (zlen_nonneg q); lia].
+    rewrite zlen_nil in *. simpl app in *.
+    split; [|split; [|split]]; cbn [r_read r_len r_store]; auto.
+    + apply mk_rep; try lia; [|rewrite zlen_nil; lia]. simpl app.
+      rewrite (rot_reset (r_store r) (read:=r_read r)) by lia.
+      rewrite HL, Hc. reflexivity.
+    + rewrite e. reflexivity.
+  - exists fr. split; [|split; [|split]]; auto. split; [|split]; auto.
+Qed.
+
+Definition cb_nonneg3 {R} (f : list A -> outcome (list A * Z * R)) : Prop :=
+  forall buf new k res, f buf = Ok (new, k, res) -> 0 <= k.
+Definition cb_nonneg2 {R} (f : list A -> outcome (Z * R)) : Prop :=
+  forall buf k res, f buf = Ok (k, res) -> 0 <= k.
+
+Lemma zlen_overlay : forall (w old : list A), zlen (overlay w old) = zlen old.
+Proof. intros. unfold zlen. rewrite overlay_length. reflexivity. Qed.
+Lemma zlen_firstn : forall (l : list A) n, 0 <= n <= zlen l -> zlen (firstn (Z.to_nat n) l) = n.
+Proof. intros. unfold zlen in *. rewrite firstn_length. lia. Qed.
+Lemma zlen_skipn : forall (l : list A) n, 0 <= n <= zlen l -> zlen (skipn (Z.to_nat n) l) = zlen l - n.
+Proof. intros. unfold zlen in *. rewrite skipn_length. lia. Qed.
+
+Lemma sim_enqueue_many_with' : forall R r q fr (f : list A -> outcome (list A * Z * R)),
+  cb_nonneg3 f -> rep r q fr ->
+  sim (ring_enqueue_many_with r f) (qs_enqueue_many_with (mkQs q fr (r_read r)) f).
+Proof.
+  intros R r q fr f Hf Hrep0.
+  destruct (rep_reset Hrep0) as (fr1 & Hrep & Hs1 & Hlen1 & Hst1).
+  unfold ring_enqueue_many_with, qs_enqueue_many_with. rewrite Hs1.
+  fold (ring_reset_if_empty r). set (r1 := ring_reset_if_empty r) in *. clearbody r1.
+  clear Hs1 Hrep0 Hlen1 Hst1 fr r. rename fr1 into fr, r1 into r.
+  pose proof (rep_cap Hrep) as Hc. destruct Hrep as (Hi & HL & Hq).
+  pose proof Hi as Hi'. unfold ring_inv in Hi'.
+  pose proof (zlen_nonneg q). pose proof (zlen_nonneg fr).
+  cbn [q_q q_fr q_pos].
+  unfold ring_contiguous_window, qs_contiguous_window, ring_window, ring_len, qs_window, qs_len, qs_cap.
+  cbn [q_q q_fr q_pos]. rewrite get_idx_pidx by (auto; lia). rewrite qs_idx_pidx, Hc, Hq.
+  unfold ring_capacity in *.
+  set (wa := pidx (zlen (r_store r)) (r_read r) (r_len r)).
+  assert (Hwa : 0 <= wa < Z.max 1 (zlen (r_store r))) by (apply pidx_range; lia).
+  replace (zlen fr) with (zlen (r_store r) - r_len r) by lia.
+  set (m := Z.min (zlen (r_store r) - r_len r) (zlen (r_store r) - wa)).
+  assert (Hm : 0 <= m) by lia.
+  rewrite in_range_true by lia. cbn [negb].
+  assert (Hold : slice (r_store r) wa m = firstn (Z.to_nat m) fr).
+  { unfold wa. rewrite rot_slice by (try fold wa; lia).
+    rewrite HL, <- Hq, <- (Z.add_0_r (zlen q)), slice_app_at by lia. reflexivity. }
+  rewrite Hold. set (old := firstn (Z.to_nat m) fr).
+  assert (Hzo : zlen old = m) by (apply zlen_firstn; lia).
+  destruct (f old) as [[[new size] res]| |] eqn:Ef; cbn [obind sim]; auto.
+  pose proof (Hf _ _ _ _ Ef) as Hsz.
+  destruct (Z.ltb_spec m size); cbn [sim]; auto.
+  set (nw := overlay new old).
+  assert (Hnw : zlen nw = m) by (unfold nw; rewrite zlen_overlay; auto).
+  assert (Hrep : rep (mkRing (put (r_store r) wa nw) (r_read r) (r_len r + size))
+                     (q ++ firstn (Z.to_nat size) nw)
+                     (skipn (Z.to_nat size) nw ++ skipn (Z.to_nat m) fr)).
+  { apply mk_rep.
+    - rewrite zlen_put by lia. lia.
+    - unfold wa. rewrite rot_put by (try fold wa; lia).
+      rewrite HL, <- Hq, <- (Z.add_0_r (zlen q)), put_app_at by lia.
+      rewrite put_0. rewrite <- app_assoc. f_equal.
+      rewrite app_assoc, firstn_skipn. f_equal. f_equal. unfold zlen in Hnw. lia.
+    - rewrite zlen_app, zlen_firstn by lia. lia. }
+  split; [apply Hrep|]. rewrite (rep_view Hrep). reflexivity.
+Qed.
+Lemma slice_nil_store : forall (l : list A) lo n, zlen l = 0 -> slice l lo n = [].
+Proof.
+  intros. destruct l; [apply slice_nil|]. rewrite zlen_cons in H. pose proof (zlen_nonneg l). lia.
+Qed.
+
+(* moving the read position forward by k <= len *)
+Lemma rep_advance : forall r q fr k, rep r q fr -> 0 <= k <= r_len r ->
+  rep (mkRing (r_store r) (pidx (ring_capacity r) (r_read r) k) (r_len r - k))
+      (skipn (Z.to_nat k) q) (fr ++ firstn (Z.to_nat k) q).
+Proof.
+  intros r q fr k Hrep Hk. pose proof (rep_cap Hrep) as Hc. destruct Hrep as (Hi & HL & Hq).
+  unfold ring_inv, ring_capacity in *. pose proof (zlen_nonneg fr).
+  apply mk_rep.
+  - apply pidx_range; lia.
+  - rewrite rot_rot by lia. rewrite HL, rotl_app by lia. reflexivity.
+  - rewrite zlen_skipn by lia. lia.
+Qed.
+
+Lemma sim_dequeue_many_with' : forall R r q fr (f : list A -> outcome (Z * R)),
+  cb_nonneg2 f -> rep r q fr ->
+  sim (ring_dequeue_many_with r f) (qs_dequeue_many_with (mkQs q fr (r_read r)) f).
+Proof.
+  intros R r q fr f Hf Hrep. pose proof (rep_cap Hrep) as Hc.
+  pose proof (fun k => @rep_advance r q fr k Hrep) as Hadv.
+  destruct Hrep as (Hi & HL & Hq).
+  pose proof Hi as Hi'. unfold ring_inv in Hi'.
+  pose proof (zlen_nonneg q). pose proof (zlen_nonneg fr).
+  unfold ring_dequeue_many_with, qs_dequeue_many_with, ring_len, qs_len, qs_cap.
+  cbn [q_q q_fr q_pos]. rewrite Hc, Hq. unfold ring_capacity in *.
+  set (m := Z.min (r_len r) (zlen (r_store r) - r_read r)).
+  assert (Hm : 0 <= m) by lia.
+  rewrite in_range_true by lia. cbn [negb].
+  assert (Hseen : slice (r_store r) (r_read r) m = firstn (Z.to_nat m) q).
+  { destruct (Z.eq_dec (zlen (r_store r)) 0) as [E|E].
+    - rewrite slice_nil_store by auto. replace m with 0 by lia. reflexivity.
+    - transitivity (slice (r_store r) (pidx (zlen (r_store r)) (r_read r) 0) m);
+        [rewrite pidx_0 by lia; reflexivity|].
+      rewrite rot_slice by (rewrite ?pidx_0 by lia; lia).
+      rewrite HL, slice_app_l by lia. reflexivity. }
+  rewrite Hseen.
+  destruct (f (firstn (Z.to_nat m) q)) as [[size res]| |] eqn:Ef; cbn [obind sim]; auto.
+  pose proof (Hf _ _ _ Ef) as Hsz.
+  destruct (Z.ltb_spec m size); cbn [sim]; auto.
+  assert (Hrd : (if 0 <? zlen (r_store r) then (r_read r + size) mod zlen (r_store r) else 0)
+                = pidx (zlen (r_store r)) (r_read r) size).
+  { unfold pidx. destruct (Z.ltb_spec 0 (zlen (r_store r))); auto. apply mod_wrap; lia. }
+  rewrite Hrd. specialize (Hadv size ltac:(lia)).
+  split; [apply Hadv|]. rewrite (rep_view Hadv). cbn [r_read].
+  rewrite qs_idx_pidx, Hc. reflexivity.
+Qed.
+
+Lemma min_if : forall a b, (if a <? b then a else b) = Z.min b a.
+Proof. intros. destruct (Z.ltb_spec a b); lia. Qed.
+
+Lemma put_nil_0 : forall (l : list A), put l 0 [] = l.
+Proof. reflexivity. Qed.
+Lemma slice_len0 : forall (l : list A) lo, slice l lo 0 = [].
+Proof. reflexivity. Qed.
+Lemma overlay_nil : forall (w : list A), overlay w [] = [].
+Proof. intros. unfold overlay. simpl. apply skipn_nil. Qed.
+
+Lemma sim_get_unallocated' : forall r q fr offset size w,
+  0 <= offset -> 0 <= size -> rep r q fr ->
+  sim (ring_get_unallocated r offset size w)
+      (qs_get_unallocated (mkQs q fr (r_read r)) offset size w).
+Proof.
+  intros r q fr offset size w Ho Hsz Hrep. pose proof (rep_cap Hrep) as Hc.
+  pose proof (rep_view Hrep) as Hv.
+  destruct Hrep as (Hi & HL & Hq).
+  pose proof Hi as Hi'. unfold ring_inv in Hi'.
+  pose proof (zlen_nonneg q). pose proof (zlen_nonneg fr).
+  unfold ring_get_unallocated, ring_unallocated_range, qs_get_unallocated, ring_window, ring_len,
+    qs_window, qs_len, qs_cap.
+  cbn [q_q q_fr q_pos]. rewrite qs_idx_pidx, Hc, Hq.
+  replace (zlen fr) with (ring_capacity r - r_len r) by lia.
+  destruct (Z.ltb_spec (ring_capacity r - r_len r) offset).
+  - rewrite in_range_true by (unfold ring_capacity in *; lia). cbn [negb sim].
+    rewrite !slice_len0, !overlay_nil, !put_nil_0.
+    split; [|rewrite <- Hv; destruct r; reflexivity]. destruct r; exact Hi.
+  - rewrite get_idx_pidx by (auto; lia). rewrite !min_if. unfold ring_capacity in *.
+    set (st := pidx (zlen (r_store r)) (r_read r) (r_len r + offset)).
+    assert (Hst : 0 <= st < Z.max 1 (zlen (r_store r))) by (apply pidx_range; lia).
+    set (n := Z.min (Z.min size (zlen (r_store r) - r_len r - offset)) (zlen (r_store r) - st)).
+    assert (Hn : 0 <= n) by lia.
+    replace (Z.min (zlen (r_store r) - st) (Z.min (zlen (r_store r) - r_len r - offset) size))
+      with n by lia.
+    rewrite in_range_true by lia. cbn [negb sim].
+    assert (Hold : slice (r_store r) st n = slice fr offset n).
+    { unfold st. rewrite rot_slice by (try fold st; lia).
+      rewrite HL, <- Hq, slice_app_at by lia. reflexivity. }
+    rewrite Hold. set (old := slice fr offset n).
+    assert (Hzo : zlen old = n).
+    { unfold old, zlen. rewrite slice_length; unfold zlen in *; lia. }
+    assert (Hrep : rep (mkRing (put (r_store r) st (overlay w old)) (r_read r) (r_len r))
+                       q (put fr offset (overlay w old))).
+    { apply mk_rep; auto.
+      - rewrite zlen_put by (rewrite ?zlen_overlay; lia). lia.
+      - unfold st. rewrite rot_put by (try fold st; rewrite ?zlen_overlay; lia).
+        rewrite HL, <- Hq, put_app_at by (rewrite ?zlen_overlay; lia). reflexivity. }
+    split; [apply Hrep|]. rewrite (rep_view Hrep). reflexivity.
+Qed.
+
+Lemma sim_enqueue_unallocated' : forall r q fr count, 0 <= count -> rep r q fr ->
+  match ring_enqueue_unallocated r count with
+  | Ok r' => ring_inv r' /\
+             qs_enqueue_unallocated (mkQs q fr (r_read r)) count = Ok (ring_view r')
+  | Err e => False
+  | Panic => qs_enqueue_unallocated (mkQs q fr (r_read r)) count = Panic
+  end.
+Proof.
+  intros r q fr count Hcnt Hrep. pose proof (rep_cap Hrep) as Hc. destruct Hrep as (Hi & HL & Hq).
+  pose proof Hi as Hi'. unfold ring_inv in Hi'.
+  pose proof (zlen_nonneg q). pose proof (zlen_nonneg fr).
+  unfold ring_enqueue_unallocated, qs_enqueue_unallocated, ring_window, ring_len, qs_window.
+  cbn [q_q q_fr q_pos]. replace (zlen fr) with (ring_capacity r - r_len r) by lia.
+  destruct (Z.ltb_spec (ring_capacity r - r_len r) count); auto.
+  assert (Hrep : rep (mkRing (r_store r) (r_read r) (r_len r + count))
+                     (q ++ firstn (Z.to_nat count) fr) (skipn (Z.to_nat count) fr)).
+  { apply mk_rep; try (unfold ring_capacity in *; lia).
+    - rewrite HL, <- app_assoc, firstn_skipn. reflexivity.
+    - rewrite zlen_app, zlen_firstn by lia. lia. }
+  split; [apply Hrep|]. rewrite (rep_view Hrep). reflexivity.
+Qed.
+
+Lemma sim_get_allocated' : forall r q fr offset size,
+  0 <= offset -> 0 <= size -> rep r q fr ->
+  ring_get_allocated r offset size = qs_get_allocated (mkQs q fr (r_read r)) offset size.
+Proof.
+  intros r q fr offset size Ho Hsz Hrep. pose proof (rep_cap Hrep) as Hc.
+  destruct Hrep as (Hi & HL & Hq).
+  pose proof Hi as Hi'. unfold ring_inv in Hi'.
+  pose proof (zlen_nonneg q). pose proof (zlen_nonneg fr).
+  unfold ring_get_allocated, qs_get_allocated, qs_len, qs_cap.
+  cbn [q_q q_fr q_pos]. rewrite qs_idx_pidx, Hc, Hq.
+  destruct (Z.ltb_spec (r_len r) offset); auto.
+  rewrite get_idx_pidx by (auto; lia). rewrite !min_if. unfold ring_capacity in *.
+  set (st := pidx (zlen (r_store r)) (r_read r) offset).
+  assert (Hst : 0 <= st < Z.max 1 (zlen (r_store r))) by (apply pidx_range; lia).
+  set (n := Z.min (Z.min size (r_len r - offset)) (zlen (r_store r) - st)).
+  assert (Hn : 0 <= n) by lia.
+  replace (Z.min (zlen (r_store r) - st) (Z.min (r_len r - offset) size)) with n by lia.
+  rewrite in_range_true by lia. cbn [negb]. f_equal.
+  unfold st. rewrite rot_slice by (try fold st; lia).
+  rewrite HL, slice_app_l by lia. reflexivity.
+Qed.
+
+Lemma sim_dequeue_allocated' : forall r q fr count, 0 <= count -> rep r q fr ->
+  match ring_dequeue_allocated r count with
+  | Ok r' => ring_inv r' /\
+             qs_dequeue_allocated (mkQs q fr (r_read r)) count = Ok (ring_view r')
+  | Err e => False
+  | Panic => qs_dequeue_allocated (mkQs q fr (r_read r)) count = Panic
+  end.
+Proof.
+  intros r q fr count Hcnt Hrep. pose proof (rep_cap Hrep) as Hc.
+  pose proof (fun k => @rep_advance r q fr k Hrep) as Hadv.
+  destruct Hrep as (Hi & HL & Hq).
+  pose proof Hi as Hi'. unfold ring_inv in Hi'.
+  unfold ring_dequeue_allocated, qs_dequeue_allocated, ring_len, qs_len.
+  cbn [q_q q_fr q_pos]. rewrite Hq.
+  destruct (Z.ltb_spec (r_len r) count); auto.
+  rewrite get_idx_pidx by (auto; lia).
+  specialize (Hadv count ltac:(lia)).
+  split; [apply Hadv|]. rewrite (rep_view Hadv). unfold qs_dequeue_n. cbn [r_read q_q q_fr q_pos].
+  rewrite qs_idx_pidx, Hc. reflexivity.
+Qed.
+
+Lemma sim_clear' : forall r q fr, rep r q fr ->
+  ring_inv (ring_clear r) /\ ring_view (ring_clear r) = qs_clear (mkQs q fr (r_read r)).
+Proof.
+  intros r q fr Hrep. pose proof (rep_cap Hrep) as Hc. destruct Hrep as (Hi & HL & Hq).
+  pose proof Hi as Hi'. unfold ring_inv, ring_capacity in Hi'.
+  assert (Hrep : rep (ring_clear r) [] (rotl (zlen (r_store r) - r_read r) (q ++ fr))).
+  { unfold ring_clear. apply mk_rep; try lia; [|reflexivity]. simpl app.
+    rewrite (rot_reset (r_store r) (read:=r_read r)) by lia. rewrite HL. reflexivity. }
+  split; [apply Hrep|]. rewrite (rep_view Hrep). unfold qs_clear, qs_cap. cbn [q_q q_fr q_pos].
+  unfold ring_capacity in Hc. rewrite Hc. reflexivity.
+Qed.
+(* ---------- the same lemmas stated on [ring_view] ---------- *)
+Lemma view_eta : forall r,
+  ring_view r = mkQs (q_q (ring_view r)) (q_fr (ring_view r)) (r_read r).
+Proof. reflexivity. Qed.
+
+Lemma view_wf : forall r, ring_inv r -> qs_wf (ring_view r).
+Proof.
+  intros r Hi. pose proof (rep_cap (view_rep Hi)) as Hc. unfold qs_wf, qs_cap.
+  rewrite Hc. cbn [ring_view q_pos]. apply Hi.
+Qed.
+
+Lemma sim_enqueue_one_with : forall R r (f : Z -> A -> outcome (A * bool * R)),
+  ring_inv r -> sim (ring_enqueue_one_with r f) (qs_enqueue_one_with (ring_view r) f).
+Proof. intros. rewrite view_eta. apply sim_enqueue_one_with'. apply view_rep; auto. Qed.
+Lemma sim_dequeue_one_with : forall R r (f : Z -> A -> outcome (bool * R)),
+  ring_inv r -> sim (ring_dequeue_one_with r f) (qs_dequeue_one_with (ring_view r) f).
+Proof. intros. rewrite view_eta. apply sim_dequeue_one_with'. apply view_rep; auto. Qed.
+Lemma sim_enqueue_many_with : forall R r (f : list A -> outcome (list A * Z * R)),
+  cb_nonneg3 f -> ring_inv r ->
+  sim (ring_enqueue_many_with r f) (qs_enqueue_many_with (ring_view r) f).
+Proof. intros. rewrite view_eta. apply sim_enqueue_many_with'; auto. apply view_rep; auto. Qed.
+Lemma sim_dequeue_many_with : forall R r (f : list A -> outcome (Z * R)),
+  cb_nonneg2 f -> ring_inv r ->
+  sim (ring_dequeue_many_with r f) (qs_dequeue_many_with (ring_view r) f).
+Proof. intros. rewrite view_eta. apply sim_dequeue_many_with'; auto. apply view_rep; auto. Qed.
+Lemma sim_get_unallocated : forall r offset size w, 0 <= offset -> 0 <= size -> ring_inv r ->
+  sim (ring_get_unallocated r offset size w) (qs_get_unallocated (ring_view r) offset size w).
+Proof. intros. rewrite view_eta. apply sim_get_unallocated'; auto. apply view_rep; auto. Qed.
+Lemma sim_get_allocated : forall r offset size, 0 <= offset -> 0 <= size -> ring_inv r ->
+  ring_get_allocated r offset size = qs_get_allocated (ring_view r) offset size.
+Proof. intros. rewrite view_eta. apply sim_get_allocated'; auto. apply view_rep; auto. Qed.
+Lemma sim_clear : forall r, ring_inv r ->
+  ring_inv (ring_clear r) /\ ring_view (ring_clear r) = qs_clear (ring_view r).
+Proof. intros. rewrite (view_eta r). apply sim_clear'. apply view_rep; auto. Qed.
+
+Lemma sim_bind : forall R R2 (x : outcome (ring A * R)) (y : outcome (qs A * R))
+  (k : ring A * R -> outcome (ring A * R2)) (k' : qs A * R -> outcome (qs A * R2)),
+  sim x y ->
+  (forall r' o, ring_inv r' -> sim (k (r', o)) (k' (ring_view r', o))) ->
+  sim (obind x k) (obind y k').
+Proof.
+  intros R R2 x y k k' H Hk. destruct x as [[r' o]| |]; cbn [sim obind] in *.
+  - destruct H as (Hi & ->). cbn [obind]. apply Hk; auto.
+  - subst. reflexivity.
+  - subst. reflexivity.
+Qed.
+End Refine.
+
+(* ------------------------------------------------------------------------------------ *)
+(* list lemmas used at the specification level                                            *)
+(* ------------------------------------------------------------------------------------ *)
+Section ZListMore.
+Context {A : Type}.
+Implicit Types l x y d buf old : list A.
+
+Lemma firstn_firstn_z : forall l a b, 0 <= a <= b ->
+  firstn (Z.to_nat a) (firstn (Z.to_nat b) l) = firstn (Z.to_nat a) l.
+Proof. intros. rewrite firstn_firstn. f_equal. lia. Qed.
+
+Lemma skipn_firstn_app_n : forall l (a b : nat), (a <= b <= length l)%nat ->
+  skipn a (firstn b l) ++ skipn b l = skipn a l.
+Proof. intros. list_ext. Qed.
+Lemma skipn_firstn_app_z : forall l a b, 0 <= a <= b -> b <= zlen l ->
+  skipn (Z.to_nat a) (firstn (Z.to_nat b) l) ++ skipn (Z.to_nat b) l = skipn (Z.to_nat a) l.
+Proof. intros. apply skipn_firstn_app_n. unfold zlen in *. lia. Qed.
+
+Lemma firstn_add_n : forall l (a b : nat),
+  firstn a l ++ firstn b (skipn a l) = firstn (a + b) l.
+Proof.
+  intros l a. revert l. induction a; intros l b; simpl; auto.
+  destruct l; simpl.
+  - rewrite firstn_nil. reflexivity.
+  - f_equal. apply IHa.
+Qed.
+Lemma firstn_add_z : forall l a b, 0 <= a -> 0 <= b ->
+  firstn (Z.to_nat a) l ++ firstn (Z.to_nat b) (skipn (Z.to_nat a) l) = firstn (Z.to_nat (a + b)) l.
+Proof. intros. rewrite firstn_add_n. f_equal. lia. Qed.
+
+Lemma skipn_skipn_n : forall l (a b : nat), skipn b (skipn a l) = skipn (a + b) l.
+Proof. intros. list_ext. Qed.
+Lemma skipn_skipn_z : forall l a b, 0 <= a -> 0 <= b ->
+  skipn (Z.to_nat b) (skipn (Z.to_nat a) l) = skipn (Z.to_nat (a + b)) l.
+Proof. intros. rewrite skipn_skipn_n. f_equal. lia. Qed.
+
+Lemma firstn_app_len : forall x y a, zlen x = a -> firstn (Z.to_nat a) (x ++ y) = x.
+Proof. intros. subst. rewrite to_nat_zlen. apply firstn_app_exact. Qed.
+Lemma skipn_app_len : forall x y a, zlen x = a -> skipn (Z.to_nat a) (x ++ y) = y.
+Proof. intros. subst. rewrite to_nat_zlen. apply skipn_app_exact. Qed.
+
+Lemma overlay_short : forall d buf, (length d <= length buf)%nat ->
+  overlay d buf = d ++ skipn (length d) buf.
+Proof. intros. unfold overlay. rewrite firstn_all2 by lia. reflexivity. Qed.
+Lemma overlay_same : forall x old, length x = length old -> overlay x old = x.
+Proof.
+  intros. unfold overlay. rewrite firstn_all2 by lia. rewrite H, skipn_all. apply app_nil_r.
+Qed.
+Lemma rotl_all : forall l, rotl (zlen l) l = l.
+Proof.
+  intros. unfold rotl. rewrite to_nat_zlen, skipn_all, firstn_all. reflexivity.
+Qed.
+Lemma zlen_rotl : forall l k, zlen (rotl k l) = zlen l.
+Proof. intros. unfold zlen. rewrite rotl_length. reflexivity. Qed.
+Lemma zlen_slice : forall l lo n, 0 <= lo -> 0 <= n -> lo + n <= zlen l -> zlen (slice l lo n) = n.
+Proof. intros. unfold zlen in *. rewrite slice_length; unfold zlen; lia. Qed.
+Lemma slice_add : forall l lo a b, 0 <= lo -> 0 <= a -> 0 <= b ->
+  slice l lo a ++ slice l (lo + a) b = slice l lo (a + b).
+Proof.
+  intros. unfold slice.
+  replace (Z.to_nat (lo + a)) with (Z.to_nat lo + Z.to_nat a)%nat by lia.
+  rewrite <- skipn_skipn_n, firstn_add_n. f_equal. lia.
+Qed.
+Lemma putn_putn : forall l (o : nat) d1 d2, (o + length d1 + length d2 <= length l)%nat ->
+  putn (putn l o d1) (o + length d1) d2 = putn l o (d1 ++ d2).
+Proof. intros. unfold putn. list_ext. Qed.
+Lemma put_put : forall l o d1 d2, 0 <= o -> o + zlen d1 + zlen d2 <= zlen l ->
+  put (put l o d1) (o + zlen d1) d2 = put l o (d1 ++ d2).
+Proof.
+  intros. rewrite !put_putn. unfold zlen in *.
+  replace (Z.to_nat (o + Z.of_nat (length d1))) with (Z.to_nat o + length d1)%nat by lia.
+  apply putn_putn. lia.
+Qed.
+
+Lemma two_piece : forall c pos j a n,
+  0 <= pos < Z.max 1 c -> 0 <= j -> 0 <= a -> j + a <= c -> 0 <= n ->
+  let s1 := Z.min (Z.min n a) (c - pidx c pos j) in
+  let s2 := Z.min (Z.min (n - s1) (a - s1)) (c - pidx c pos (j + s1)) in
+  s1 + s2 = Z.min n a /\ 0 <= s1 /\ 0 <= s2.
+Proof.
+  intros. subst s1 s2. unfold pidx, wrap.
+  destruct (Z.ltb_spec 0 c).
+  - destruct (Z.leb_spec c (pos + j));
+      destruct (Z.leb_spec c (pos + (j + Z.min (Z.min n a) (c - (pos + j - c)))));
+      destruct (Z.leb_spec c (pos + (j + Z.min (Z.min n a) (c - (pos + j))))); lia.
+  - lia.
+Qed.
+End ZListMore.
